@@ -6,7 +6,11 @@ PROP = {'suites': ['c04fn', 'c04flow', 'c04reg'],
              3: 'introspection reports a client other than the one the grant was issued to, or - for a client_credentials / jwt-bearer grant - another subject than the client itself / the one the '
                 'assertion handler answered; jwt-bearer tokens without an accepted assertion',
              4: 'a token response (resources member, aud of a JWT access token) or an introspection answer (aud) names a resource outside the grant (client_credentials: outside what was requested '
-                'and configured)'},
+                'and configured)',
+             5: 'a token response (authorization_details member, authorization_details claim of a JWT access token), a pushed CIBA token notification or an introspection / TokenInfo answer carries '
+                'an authorization detail whose type the server does not support (any at all when rich authorization requests are off)',
+             6: 'a reported authorization detail lies outside the grant: not among the details the embedder granted (subset compare function; by type with a by-type compare function), for '
+                'client_credentials not among the requested ones, for jwt-bearer any at all'},
  'title': 'Issued tokens never exceed what was granted or what the client may ask for',
  'text': 'Theorems over the hand-written model: ownerless_within_client, jwt_bearer_within_client (for every store and request: jwt-bearer yields tokens only on a server that enabled the grant, to a '
          'client registered for it - the authenticated one or, for a request without any client identification where anonymous use is allowed, the anonymous client made of the ids of the server '
@@ -27,14 +31,30 @@ PROP = {'suites': ['c04fn', 'c04flow', 'c04reg'],
          "the grant types of the session's client a deterministic grant-type matrix (clients with aligned and NOT aligned grant_types / response_types - hybrid response types without implicit, "
          'implicit without its response types, code response type without authorization_code - x every response type x servers with both grants / code only / implicit only, direct and pushed, every '
          'code redeemed) and s over the same client (clause 2: a code delivered to a client without authorization_code, an access token / ID token delivered by the authorization endpoint to a client '
-         'without implicit, an artifact for a response type the client did not register, tokens from the token endpoint for a grant type the client or the server lacks) Registration changes mid-flow '
-         "(suite c04reg, Corr/Phased.v): tokens, a refresh token and a code are obtained, then refresh_token / authorization_code / client_credentials / a scope is dropped from the client's "
-         'registration, then the refresh token, the code and every grant are used again: a grant type is served only to a client registered for it at the time of the request (mon_C04x per phase).',
+         'without implicit, an artifact for a response type the client did not register, tokens from the token endpoint for a grant type the client or the server lacks) Rich authorization requests '
+         '(RFC 9396) are in the sys model: an authorization detail is its type plus an opaque payload id; params / sessions / grants / token requests / config (enabled, supported types, the embedder '
+         'compare function as one of four shapes: none, subset by equality, accept-all, by type) / client (registered authorization_data_types) carry them, token responses, JWT access tokens, pushed '
+         "CIBA notifications and introspection report them. details_types_supported (over ALL histories, any configuration and compare function: every stored grant's active and granted authorization "
+         "details have types among the server's supported ones - the all-of rule of validateAuthDetailsTypes - provided the embedder itself grants supported types only, which the library does not "
+         'check), details_supported_or_granted (same quantifier, no proviso: an active detail has a supported type or is one the embedder granted to that grant), details_within_grant (with the '
+         'subset compare function the active details of every stored grant are among its granted ones), details_decision (for every store and request: authorization_code / CIBA / refresh yield '
+         "tokens only if EVERY requested detail has a supported type and the compare function accepted the list against the session's / grant's granted details, and what the grant written records; "
+         'client_credentials only if every requested type is supported, granted = active = requested; jwt-bearer checks the types and records nothing), authorize_details_supported (accepted '
+         'authorization parameters name only types the server supports and the client registered), introspection_details_truthful. Generators: a pool of supported / unsupported / near-miss (case, '
+         'prefix, extension, empty) types, lists mixing them in every order, duplicates, `[]`, subsets and supersets of the grant at the token endpoint; the scripted policy and InitBackAuthFunc call '
+         'GrantAuthorizationDetails. scenarioAuthDetailsMatrix (c04flow, c10): every issuing grant type (client_credentials opaque and JWT, jwt-bearer, authorization_code, PAR, implicit, CIBA poll / '
+         'ping / push) x 17 detail lists x 5 worlds (each compare function, feature off) x refresh chains naming subsets / supersets / mixed lists / `[]` / nothing, clients with registered types. '
+         'Registration changes mid-flow (suite c04reg, Corr/Phased.v): tokens, a refresh token and a code are obtained, then refresh_token / authorization_code / client_credentials / a scope is '
+         "dropped from the client's registration, then the refresh token, the code and every grant are used again: a grant type is served only to a client registered for it at the time of the "
+         'request (mon_C04x per phase).',
  'note': 'Resource indicators are modelled (granted/active resources, aud of JWT access tokens, the resources member of token responses, aud at introspection). Authorization details (RFC 9396) are '
-         'NOT in the sys model (the harness never sends them there). The jwt-bearer grant is in the sys model (Token.jwt_bearer_grant; the assertion is an oracle input: absent / refused / accepted '
-         'with a subject) and in the invariants over all histories (issued_within_grant, resources_within_grant); scenarioJwtBearerMatrix in c04flow: every client kind incl. no client identification '
-         'x client authentication required or not x credential x assertion x scopes inside / outside the registration x resources, then introspection, userinfo and refresh of every issued token. The '
-         'anonymous client is built once per PROCESS by the code (sync.Once): the harness resets it per world (harness/jwtb_anon.go), the model describes one provider per process. identity_truthful '
-         'is covered by correspondence (sub/client_id compared at introspection and userinfo) and monitor clauses 1 and 3 (owner-less grants: also the subject).',
+         'modelled abstractly (type + opaque payload id; the compare function is one of four shapes the harness installs, the payload is compared by equality only); what the EMBEDDER grants is not '
+         'checked by the library, so details_types_supported carries the proviso that the embedder grants supported types only (the generators obey it; details_supported_or_granted is the statement '
+         'without proviso). An unparsable authorization_details parameter is silently ignored by the code (treated as absent) - not generated. The jwt-bearer grant is in the sys model '
+         '(Token.jwt_bearer_grant; the assertion is an oracle input: absent / refused / accepted with a subject) and in the invariants over all histories (issued_within_grant, '
+         'resources_within_grant); scenarioJwtBearerMatrix in c04flow: every client kind incl. no client identification x client authentication required or not x credential x assertion x scopes '
+         'inside / outside the registration x resources, then introspection, userinfo and refresh of every issued token. The anonymous client is built once per PROCESS by the code (sync.Once): the '
+         'harness resets it per world (harness/jwtb_anon.go), the model describes one provider per process. identity_truthful is covered by correspondence (sub/client_id compared at introspection '
+         'and userinfo) and monitor clauses 1 and 3 (owner-less grants: also the subject).',
  'technique': 'Coq proof (invariant by induction over operation histories + decision-rule equivalence) tied to the code by differential correspondence on generated inputs',
  'design_ref': 'DESIGN.md section 6, C04'}
